@@ -5,10 +5,10 @@ ID="$1"; shift
 W=/tmp/wt-reseed
 cd "$(dirname "$0")/.."
 [ -d $W ] || git -C /repo worktree add -q --detach $W HEAD || exit 2
-git -C $W checkout -q --detach $(git -C /repo rev-parse HEAD) && git -C $W checkout -q -- . && git -C $W clean -fdq -e target || exit 2
-git -C $W apply "$PWD/seeded/$ID/patch.diff" 2>/dev/null || git -C $W apply --3way "$PWD/seeded/$ID/patch.diff" >/dev/null 2>&1 || { echo "patch of $ID does not apply"; exit 3; }
+git -C $W reset -q --hard 2>/dev/null; git -C $W checkout -q --detach $(git -C /repo rev-parse HEAD) && git -C $W checkout -q -- . && git -C $W clean -fdq -e target || exit 2
+git -C $W apply "$PWD/seeded/$ID/patch.diff" 2>/dev/null || git -C $W apply --3way "$PWD/seeded/$ID/patch.diff" >/dev/null 2>&1 || { git -C $W reset -q --hard; echo "patch of $ID does not apply"; exit 3; }
 echo "$ID" > /tmp/wt-reseed.id
 # a different tree behind the same path: force the rebuild
 rm -f sim/target-scratch/.verif_repo
 tools/matrix.sh $W "$@" | sed "s/^wt-reseed/$ID/"
-git -C $W checkout -q -- .
+git -C $W reset -q --hard
